@@ -1,0 +1,18 @@
+//go:build verif
+
+package vm
+
+import (
+	"github.com/zenon-network/go-zenon/chain/nom"
+	"github.com/zenon-network/go-zenon/common/types"
+	"github.com/zenon-network/go-zenon/vm/vm_context"
+)
+
+// Exports for the verification harness under /verif (build tag verif only).
+
+// VerifGenerateEmbeddedReceive runs the generation of a contract receive block on the given context, exactly as
+// applyBlock does for BlockTypeContractReceive before comparing hash and changes-hash.
+func VerifGenerateEmbeddedReceive(context vm_context.AccountVmContext, fromBlockHash types.Hash) (*nom.AccountBlock, error) {
+	block, _, err := NewVM(context).generateEmbeddedReceive(fromBlockHash)
+	return block, err
+}
